@@ -103,6 +103,9 @@ VALUE_KINDS = {
     "nested_arg": ("@constexpr\ndef inc(a):\n    return a + 1\n", ["inc(inc(3))", "inc(2 * 3 + 1)", "inc(-(4))", "inc(1 if 2 > 1 else 5)"]),
     "enum_arg": ("@constexpr\ndef ev(e, k):\n    return e * 100 + k\n", ["ev(LogicType.Setting, 1)", "ev(SortingClass.Ores, 2)"]),
     "small": ("@constexpr\ndef tiny(k):\n    return k / 1000000\n", ["tiny(5)", "tiny(-25)", "tiny(123456)"]),
+    "unsigned32": ("@constexpr\ndef mask(b):\n    return 0xFF << b\n", ["mask(24)", "mask(23)", "mask(31)", "mask(32)"]),
+    "int_edges": ("@constexpr\ndef edge(k):\n    return 2 ** 31 + k\n", ["edge(0)", "edge(-1)", "edge(2 ** 31 - 1)", "edge(2 ** 31)"]),
+    "unsigned_hash": ("@constexpr\ndef uhash(name):\n    return HASH(name) & 0xFFFFFFFF\n", ['uhash("ItemSteelIngot")', 'uhash("ItemIronIngot")', 'uhash("abc")']),
     "math": ("@constexpr\ndef m(a):\n    import math\n    return math.floor(a) + math.sqrt(16)\n", ["m(2.7)", "m(-2.7)"]),
 }
 
